@@ -591,6 +591,15 @@ class Engine:
             if pos != off + sz: raise Inconclusive(f'INT mode: wide load over partly uninitialised cells (off={off} size={sz} cells={[(o, c) for o, c, _ in ov]} objsize={ob.size} kind={ob.kind})')
             if all(isinstance(v, int) for _, _, v in parts):
                 return s.conv_loaded(st, sum(v << (8 * ro) for ro, _, v in parts), tk, bits)
+            if tk in ('float', 'double') and all(isinstance(v, IntV) and v.lazy is not None for _, _, v in parts):
+                # a float/double assembled from word-wise copied pieces of one symbolic buffer: the buffer content there as a real
+                obj0, off0, _ = parts[0][2].lazy
+                if all(v.lazy[0] == obj0 and z3.eq(z3.simplify(v.lazy[1] - off0), z3.IntVal(ro)) for ro, _, v in parts):
+                    key = (obj0, sz, 'real')
+                    f = s.ufs.get(key)
+                    if f is None:
+                        f = z3.Function(f'mem!{obj0[1]}!{sz}r', z3.IntSort(), z3.RealSort()); s.ufs[key] = f
+                    return f(off0)
             return Bundle(parts, sz)
         bs = []
         for i in range(sz):
@@ -1397,6 +1406,8 @@ class Engine:
             return v
         if ft.k == 'int' and tt.k in ('float', 'double') and (isinstance(v, Fraction) or (z3.is_expr(v) and v.sort().kind() == z3.Z3_REAL_SORT)):
             return v      # a float that travelled through an integer register (piece of a bundle)
+        if ft.k == 'int' and tt.k in ('float', 'double') and isinstance(v, IntV) and v.lazy is not None:
+            return s.conv_loaded(st, v, tt.k, 0)      # untyped read of a symbolic buffer, now typed as a real
         if ft.k in ('float', 'double') and tt.k == 'int':
             return v      # stays a real; only storing/bundling is possible with it
         if ft.k in ('float', 'double') or tt.k in ('float', 'double'):
